@@ -1,4 +1,3 @@
-use std::cmp::max;
 use std::fmt;
 
 use crate::common::position::{CaretPos, Position};
@@ -11,15 +10,11 @@ pub struct Lex {
 
 impl Lex {
     pub fn new(start: CaretPos, token: Token) -> Self {
-        let end = if let Token::Str(_str, _) = &token {
-            start.offset_line(max((_str.lines().count() as i32 - 1) as usize, 0))
-        } else if let Token::DocStr(_str) = &token {
-            start.offset_line(max((_str.lines().count() as i32 - 1) as usize, 0))
-        } else {
-            start
+        let end = match &token {
+            // strings may span multiple lines
+            Token::Str(..) | Token::DocStr(_) => start.offset_text(&token.to_string()),
+            _ => start.offset_pos(token.width()),
         };
-
-        let end = end.offset_pos(token.clone().width());
         let pos = Position { start, end };
         Lex { pos, token }
     }
